@@ -124,6 +124,23 @@ def close_db(db, dbfn):
                 os.unlink(p)
 
 
+def stored_ids(db, rows):
+    """The database ids of the stored features in file order (= insertion order), for inputs whose lines carry no ID or
+    a repeated ID; None when the stored features cannot be matched with the rows column by column."""
+    ids = [row[0] for row in db.execute("SELECT id FROM features ORDER BY rowid")]
+    if len(ids) != len(rows) or len(set(ids)) != len(ids):
+        return None
+    for i, r in zip(ids, rows):
+        f = db[i]
+        if [f.seqid, f.strand, f.featuretype, f.start, f.end] != list(r):
+            return None
+    return ids
+
+
+def create_kwargs(case):
+    return {"merge_strategy": "create_unique"} if case.get("dup") else {}
+
+
 def model_row(r):
     return {"seqid": r[0], "strand": r[1], "featuretype": r[2], "start": r[3], "end": r[4]}
 
@@ -171,6 +188,8 @@ def in_form(ctx, where, crits, form):
     if form == "callable" and len(crits) != 1:
         form = "list"
     ctx.mon("%s: merge_criteria passed as %s" % (where, form))
+    if not crits:
+        ctx.mon("%s: EMPTY merge_criteria passed as %s" % (where, form))
     if form == "tuple":
         return tuple(crits)
     if form == "set":
@@ -266,6 +285,32 @@ def one_merge(ctx, case, db, feats, model_in, desc, step, issued, dbids):
         return bad("an input is neither yielded nor a child of an output")
     if any(n > 1 for n in seen.values()):
         return bad("an input belongs to more than one output")
+    in_ids = [f.id for f in feats]
+    if None not in in_ids and len(set(in_ids)) == len(in_ids):
+        # the same partition, by feature id: every input id once, as an unchanged output or as a child
+        got_ids = Counter()
+        for o in out:
+            for c in (getattr(o, "children", None) or [o]):
+                got_ids[c.id] += 1
+        ctx.mon("partitions compared by feature id")
+        if got_ids != Counter(in_ids):
+            return bad("the ids of the outputs without children and of the children are not the ids of the inputs, each once",
+                       missing=sorted((Counter(in_ids) - got_ids).keys())[:5], extra=sorted(map(str, (got_ids - Counter(in_ids)).keys()))[:5])
+    if case.get("dup"):
+        run_of = {m: k for k, r in enumerate(got_runs) for m in r}
+        texts = [str(f) for f in feats]
+        twins = 0
+        for i in range(len(feats) - 1):
+            if texts[i] == texts[i + 1]:
+                twins += 1
+                if run_of[i] == run_of[i + 1]:
+                    ctx.mon("identical neighbours (all columns and attributes) that are children of the same output")
+                else:
+                    ctx.mon("identical neighbours (all columns and attributes) that end up in different outputs")
+        if twins:
+            ctx.mon("merge calls on inputs holding features identical in all columns and attributes")
+            if case["source"] == "db":
+                ctx.mon("merge calls on inputs holding identical features read from a database")
     exp_runs = M.single_pass(model_in, desc)
     if sorted(sorted(r) for r in got_runs) != sorted(sorted(r) for r in exp_runs):
         return bad("run boundaries differ from the criteria model", got=got_runs, expected=exp_runs)
@@ -327,6 +372,8 @@ def execute(ctx, case):
             return execute_merge(ctx, case)
         if kind == "merge_all":
             return execute_merge_all(ctx, case)
+        if kind == "empty":
+            return execute_empty(ctx, case)
         return execute_children_bp(ctx, case)
     finally:
         for v in contracts.drain():
@@ -343,14 +390,27 @@ def execute_merge(ctx, case):
     try:
         if case["source"] == "objects":
             db = scratch_db()
-            feats = [gffutils.Feature(seqid=r[0], source="src%d" % (i % 2), featuretype=r[2], start=r[3], end=r[4], strand=r[1],
-                                      attributes={"ID": ["in%d" % i]}, id="in%d" % i) for i, r in enumerate(rows)]
+            if case.get("dup"):
+                # one object per row, equal rows give objects equal in all nine columns and attributes (ids differ)
+                feats = [gffutils.Feature(seqid=r[0], source="src", featuretype=r[2], start=r[3], end=r[4], strand=r[1],
+                                          attributes={"note": ["dup"]}, id="in%d" % i) for i, r in enumerate(rows)]
+            else:
+                feats = [gffutils.Feature(seqid=r[0], source="src%d" % (i % 2), featuretype=r[2], start=r[3], end=r[4], strand=r[1],
+                                          attributes={"ID": ["in%d" % i]}, id="in%d" % i) for i, r in enumerate(rows)]
         else:
             dbfn = ctx.tmp(".db") if case.get("dbfile") else ":memory:"
             try:
-                db = gffutils.create_db(G.gff3(rows, case["ids"]), dbfn, from_string=True)
-                by_id = {f.id: f for f in db.all_features(order_by="start")}
-                feats = [by_id[i] for i in case["ids"]]
+                if case.get("dup"):
+                    db = gffutils.create_db(G.gff3(rows, case["ids"], same_source=True), dbfn, from_string=True, **create_kwargs(case))
+                    ids = stored_ids(db, rows)
+                    if ids is None:
+                        ctx.violation(case, {"why": "harness: the stored features cannot be matched with the generated rows"})
+                        return
+                    feats = [db[i] for i in ids]          # one object per stored feature
+                else:
+                    db = gffutils.create_db(G.gff3(rows, case["ids"]), dbfn, from_string=True)
+                    by_id = {f.id: f for f in db.all_features(order_by="start")}
+                    feats = [by_id[i] for i in case["ids"]]
             except Exception as ex:
                 ctx.violation(case, {"why": "harness: building the input database raised %r" % (ex,)})
                 return
@@ -423,11 +483,26 @@ def execute_merge_all(ctx, case):
             raise AssertionError("harness: tie-sensitive criteria generated for rows that tie on the merge order")
     dbfn = ctx.tmp(".db") if case.get("dbfile") else ":memory:"
     try:
-        db = gffutils.create_db(G.gff3(rows, ids, case.get("parents")), dbfn, from_string=True)
+        db = gffutils.create_db(G.gff3(rows, ids, case.get("parents"), same_source=bool(case.get("dup"))), dbfn, from_string=True,
+                                **create_kwargs(case))
     except Exception as ex:
         ctx.violation(case, {"why": "harness: building the input database raised %r" % (ex,)})
         return
     try:
+        if case.get("dup"):
+            ids = stored_ids(db, rows)
+            if ids is None:
+                ctx.violation(case, {"why": "harness: the stored features cannot be matched with the generated rows"})
+                return
+        judge_merge_all(ctx, case, db, rows, ids, desc, exclude, groups, form)
+    finally:
+        close_db(db, dbfn)
+
+
+def judge_merge_all(ctx, case, db, rows, ids, desc, exclude, groups, form):
+    """One call of the real merge_all on `db` (holding exactly `rows` under `ids`), judged on the content dump.
+    Returns the sorted extents of the new features, or None after a violation."""
+    if True:
         before = dbdump.dump_db(db)
         # the model: per featuretype group, one pass over the features in merge order
         runs = []
@@ -438,6 +513,16 @@ def execute_merge_all(ctx, case):
             for run in M.single_pass(feats, desc):
                 runs.append([sel[j] for j in run])
             rejected_evidence(ctx, feats, desc, prefix="merge_all: ")
+            if groups and len(groups) > 1:
+                n_multi = sum(1 for run in M.single_pass(feats, desc) if len(run) > 1)
+                if n_multi:
+                    ctx.mon("merge_all: featuretype groups (of several in one call) holding multi-member runs")
+                    if grp is not groups[0]:
+                        ctx.mon("merge_all: featuretype groups after the first holding multi-member runs")
+                if grp is not groups[0] and M.single_pass(feats, desc) != M.single_pass(feats, M.DEFAULT):
+                    ctx.mon("merge_all: featuretype groups after the first whose runs differ from those under the default criteria")
+                    ctx.mon("merge_all: groups after the first whose runs differ from the default ones, merge_criteria passed as %s"
+                            % (form if not (form == "callable" and len(desc) != 1) else "list"))
         multi = [r for r in runs if len(r) > 1]
         members = set(ids[i] for r in multi for i in r)
         kw = {"merge_criteria": in_form(ctx, "merge_all", real_criteria(ctx, desc), form), "exclude_components": exclude}
@@ -447,8 +532,12 @@ def execute_merge_all(ctx, case):
             res = db.merge_all(**kw)
         except Exception as ex:
             ctx.violation(case, {"why": "merge_all raised %s" % type(ex).__name__, "error": repr(ex), "criteria": desc})
-            return
+            return None
         ctx.mon("merge_all calls")
+        if groups and len(groups) > 1:
+            ctx.mon("merge_all calls with several featuretype groups")
+            ctx.mon("merge_all calls with several featuretype groups: merge_criteria passed as %s"
+                    % (form if not (form == "callable" and len(desc) != 1) else "list"))
         after = dbdump.dump_db(db)
         bf = {f["id"]: f for f in before["features"]}
         af = {f["id"]: f for f in after["features"]}
@@ -456,6 +545,7 @@ def execute_merge_all(ctx, case):
         def bad(why, **more):
             ctx.violation(case, dict(more, why="merge_all: " + why, criteria=desc, exclude_components=exclude,
                                      model_runs=[[ids[i] for i in r] for r in multi][:8]))
+            return None
 
         if len(af) != len(after["features"]):
             return bad("duplicate ids stored")
@@ -510,8 +600,14 @@ def execute_merge_all(ctx, case):
             exp_u = [tuple(x) for x in M.union_extents([model_row(r) for r in rows])]
             if got_u != exp_u:
                 return bad("stored top-level extents differ from the position-set union", got=got_u[:10], expected=exp_u[:10])
-    finally:
-        close_db(db, dbfn)
+        if case.get("dup"):
+            # features identical in all columns and attributes: every one of them is a member of its own
+            twin = [i for i in range(len(rows)) if any(j != i and rows[j] == rows[i] for j in range(len(rows)))]
+            n = sum(1 for i in twin if ids[i] in members)
+            if n:
+                ctx.mon("merge_all: identical features (all columns and attributes) that are members of runs: %s"
+                        % ("each deleted" if exclude else "each related to the new feature at level 1"), n)
+        return got_ext
 
 
 # -- children_bp ---------------------------------------------------------------------------------------------------------------
@@ -521,15 +617,24 @@ def execute_children_bp(ctx, case):
     rows, ids, parents = case["feats"], case["ids"], case["parents"]
     dbfn = ctx.tmp(".db") if case.get("dbfile") else ":memory:"
     try:
-        db = gffutils.create_db(G.gff3(rows, ids, parents), dbfn, from_string=True)
+        db = gffutils.create_db(G.gff3(rows, ids, parents, same_source=bool(case.get("dup"))), dbfn, from_string=True,
+                                **create_kwargs(case))
     except Exception as ex:
         ctx.violation(case, {"why": "harness: building the input database raised %r" % (ex,)})
         return
     try:
+        # keys of the generated hierarchy: the id where a line has one of its own, else the position of the line
+        keys = [i if i is not None and ids.count(i) == 1 else "#%d" % n for n, i in enumerate(ids)]
+        actual = ids
+        if case.get("dup"):
+            actual = stored_ids(db, rows)
+            if actual is None:
+                ctx.violation(case, {"why": "harness: the stored features cannot be matched with the generated rows"})
+                return
         dump0 = dbdump.dump_db(db)
         log0, auth0 = len(sqltrace.LOG), len(sqltrace.AUTH)
         # descendants in the generated hierarchy
-        pmap = dict(zip(ids, parents))
+        pmap = dict(zip(keys, parents))
 
         def ancestors(i, acc=None):
             acc = set() if acc is None else acc
@@ -541,13 +646,15 @@ def execute_children_bp(ctx, case):
 
         for call in case["calls"]:
             target, ctype, desc = call["of"], call["child_featuretype"], call.get("criteria")
-            kids = [model_row(r) for r, i in zip(rows, ids) if r[2] == ctype and target in ancestors(i)]
+            kid_rows = [r for r, i in zip(rows, keys) if r[2] == ctype and target in ancestors(i)]
+            kids = [model_row(r) for r in kid_rows]
             kids.sort(key=lambda f: f["start"])
+            twins = len(kid_rows) - len(set(map(tuple, kid_rows))) if case.get("dup") else 0
             arg = target if call["by"] == "id" else db[target]
             kw = {"child_featuretype": ctype, "merge": call["merge"]}
             if desc is not None:
                 kw["merge_criteria"] = in_form(ctx, "children_bp", real_criteria(ctx, desc), call.get("form", "list"))
-            kid_ids = set(i for r, i in zip(rows, ids) if r[2] == ctype and target in ancestors(i))
+            kid_ids = set(a for r, i, a in zip(rows, keys, actual) if r[2] == ctype and target in ancestors(i))
             levels = Counter(c for p, c, lvl in map(tuple, dump0["relations"]) if p == target and c in kid_ids)
             several = any(n > 1 for n in levels.values())
             try:
@@ -559,6 +666,8 @@ def execute_children_bp(ctx, case):
                     ctx.violation(case, {"why": "children_bp raised %s" % type(ex).__name__, "error": repr(ex), "call": call})
                 continue
             ctx.mon("children_bp calls")
+            if twins:
+                ctx.mon("children_bp calls over children holding features identical in all columns and attributes: merge=%s" % bool(call["merge"]))
             if several:
                 ctx.mon("children_bp calls with a child related to the queried feature at several levels: merge=%s" % bool(call["merge"]))
             crit = M.DEFAULT if desc is None else desc
@@ -588,6 +697,116 @@ def execute_children_bp(ctx, case):
             ctx.violation(case, {"why": "write statement on the database connection during children_bp", "statements": stmts[:3]})
     finally:
         close_db(db, dbfn)
+
+
+# -- no criterion at all: merge(), children_bp(merge=True) and merge_all() on one database ----------------------------------------
+def execute_empty(ctx, case):
+    """merge_criteria is an EMPTY list / tuple: no criterion, so every feature joins the current run (one run over the
+    whole input).  The three entry points are run on the same database and compared with the model and with each other."""
+    import gffutils
+
+    rows, ids, parents, form = case["feats"], case["ids"], case["parents"], case["form"]
+    groups, exclude = case.get("groups"), case["exclude_components"]
+    dbfn = ctx.tmp(".db") if case.get("dbfile") else ":memory:"
+    try:
+        db = gffutils.create_db(G.gff3(rows, ids, parents), dbfn, from_string=True)
+    except Exception as ex:
+        ctx.violation(case, {"why": "harness: building the input database raised %r" % (ex,)})
+        return
+    try:
+        dump0 = dbdump.dump_db(db)
+        dbids = set(f["id"] for f in dump0["features"])
+        log0, auth0 = len(sqltrace.LOG), len(sqltrace.AUTH)
+        first = groups[0] if groups else None
+        sel = [i for i, r in enumerate(rows) if first is None or r[2] in first]
+        sel.sort(key=lambda i: rows[i][3])
+        try:
+            feats = [db[ids[i]] for i in sel]
+        except Exception as ex:
+            ctx.violation(case, {"why": "harness: reading the stored features back raised %r" % (ex,)})
+            return
+        model_in = [model_row(rows[i]) for i in sel]
+        if len(M.single_pass(model_in, M.DEFAULT)) > 1:
+            ctx.mon("empty merge_criteria: inputs that fall into several runs under the default criteria")
+        # 1. merge(features, merge_criteria=[])
+        strs = [str(f) for f in feats]
+        out = one_merge(ctx, case, db, feats, model_in, [], "first merge", set(), dbids)
+        if out is None:
+            return
+        ctx.mon("empty merge_criteria: merge() calls compared with the one-run model")
+        ctx.mon("input str() comparisons", len(feats))
+        if [str(f) for f in feats] != strs:
+            ctx.violation(case, {"why": "an input feature was changed by merge() (first merge)", "criteria": []})
+            return
+        # 2. children_bp(gene, merge=True, merge_criteria=[])
+        ctype = case["child_featuretype"]
+        kids = sorted((model_row(r) for r in rows if r[2] == ctype), key=lambda f: f["start"])
+        exp = M.merged_length(kids, [])
+        try:
+            got = db.children_bp(case["of"], child_featuretype=ctype, merge=True,
+                                 merge_criteria=in_form(ctx, "children_bp", real_criteria(ctx, []), form))
+        except Exception as ex:
+            ctx.violation(case, {"why": "children_bp raised %s" % type(ex).__name__, "error": repr(ex), "criteria": []})
+            return
+        ctx.mon("children_bp calls")
+        ctx.mon("empty merge_criteria: children_bp(merge=True) calls compared with the one-run model")
+        if got != exp:
+            ctx.violation(case, {"why": "children_bp differs from the merged lengths of the single-pass model", "got": got, "expected": exp,
+                                 "criteria": [], "children": [[k["start"], k["end"], k["strand"]] for k in kids]})
+            return
+        if first is not None and list(first) == [ctype]:
+            ctx.mon("empty merge_criteria: children_bp(merge=True) compared with the lengths of merge()'s outputs")
+            if got != sum(o.end - o.start + 1 for o in out):
+                ctx.violation(case, {"why": "children_bp(merge=True, merge_criteria=[]) differs from the summed lengths of the outputs "
+                                            "of merge(children, merge_criteria=[])", "got": got,
+                                     "merge_outputs": [[o.start, o.end] for o in out]})
+                return
+        stmts, auth = sqltrace.writes(since_log=log0, since_auth=auth0)
+        sqltrace.reset()
+        d = dbdump.diff(dump0, dbdump.dump_db(db))
+        ctx.mon("database dumps compared")
+        if d:
+            ctx.violation(case, {"why": "database content changed by merge() / children_bp", "diff": d, "criteria": []})
+            return
+        if stmts or auth:
+            ctx.violation(case, {"why": "write statement on the database connection during merge() / children_bp", "statements": stmts[:3]})
+            return
+        # 3. merge_all(merge_criteria=[])
+        ext = judge_merge_all(ctx, case, db, rows, ids, [], exclude, groups, form)
+        if ext is None:
+            return
+        ctx.mon("empty merge_criteria: merge_all() calls compared with the one-run model")
+        mine = sorted((o.start, o.end) for o in out if getattr(o, "children", None))
+        rest = Counter(ext) - Counter(mine)
+        ctx.mon("empty merge_criteria: merge_all()'s new features compared with merge()'s outputs")
+        if sum(rest.values()) != len(ext) - len(mine) or (not groups or len(groups) == 1) and sorted(ext) != mine:
+            ctx.violation(case, {"why": "merge_all(merge_criteria=[]) stores other merged extents than merge(features, merge_criteria=[]) yields",
+                                 "merge_all": ext, "merge": mine})
+    finally:
+        close_db(db, dbfn)
+
+
+def gen_empty(rng):
+    seqid = rng.choice(G.SEQIDS)
+    rows = G.gapped_feats(rng)
+    for r in rows:
+        r[0] = seqid
+        if rng.random() < 0.25:
+            r[2] = "CDS"
+    if not any(r[2] == "exon" for r in rows):
+        rows[0][2] = "exon"
+    hi = max(r[4] for r in rows)
+    gstrand = rng.choice(G.STRANDS)
+    rows = [[seqid, gstrand, "gene", 1, hi + 5], [seqid, gstrand, "mRNA", 1, hi + 5]] + rows
+    ids = ["G", "T"] + ["x%d" % j for j in range(len(rows) - 2)]
+    parents = [[], ["G"]] + [rng.choice([["T"], ["T"], ["G"], ["T", "G"]]) for _ in rows[2:]]
+    order = list(range(len(rows)))
+    if rng.random() < 0.5:
+        rng.shuffle(order)
+    rows, ids, parents = [rows[i] for i in order], [ids[i] for i in order], [parents[i] for i in order]
+    return {"kind": "empty", "feats": rows, "ids": ids, "parents": parents, "form": rng.choice(["list", "tuple"]),
+            "exclude_components": rng.random() < 0.5, "of": "G", "child_featuretype": "exon",
+            "groups": rng.choice([[["exon"]], [["exon"]], [["exon"], ["CDS"]], [["exon", "CDS"]], None]), "dbfile": rng.random() < 0.15}
 
 
 # -- workload ------------------------------------------------------------------------------------------------------------------
@@ -687,6 +906,74 @@ def gen_merge_all_shaped(rng):
             "exclude_components": rng.random() < 0.5, "groups": groups, "dbfile": rng.random() < 0.2}
 
 
+def gen_merge_dup(rng):
+    """merge() over inputs in which 1..3 features occur twice or three times, identical in all nine columns and attributes."""
+    base = G.random_feats(rng, nmax=7) if rng.random() < 0.7 else G.shaped_feats(rng, nmax=6)
+    rows, copy_of = G.with_twins(rng, base)
+    r = rng.random()
+    desc = list(M.DEFAULT) if r < 0.5 else G.criteria(rng) if r < 0.85 else ["seqid", "strand", "feature_type", "exact_coordinates_only"]
+    case = {"kind": "merge", "feats": rows, "criteria": desc, "dup": True, "again": rng.random() < 0.3, "second": G.criteria(rng),
+            "omit_criteria": rng.random() < 0.5, "form": G.criteria_form(rng, desc)}
+    if rng.random() < 0.5:
+        case["source"] = "objects"
+    else:
+        case.update(source="db", ids=G.twin_ids(rng, copy_of, rng.choice(G.TWIN_MODES)), dbfile=rng.random() < 0.15)
+    return case
+
+
+def gen_merge_all_dup(rng):
+    rows, copy_of = G.with_twins(rng, G.random_feats(rng, nmax=7))
+    ids = G.twin_ids(rng, copy_of, rng.choice(G.TWIN_MODES))
+    groups = None
+    if rng.random() < 0.2:
+        groups = rng.choice([[["exon"], ["CDS"]], [["exon", "CDS"]]])
+    r = rng.random()
+    desc = list(M.DEFAULT) if r < 0.5 else [] if r < 0.58 else G.tie_insensitive_criteria(rng)
+    return {"kind": "merge_all", "feats": rows, "ids": ids, "parents": [[] for _ in rows], "criteria": desc, "dup": True,
+            "form": G.criteria_form(rng, desc, one_shot=not groups or len(groups) < 2),
+            "exclude_components": rng.random() < 0.5, "groups": groups, "dbfile": rng.random() < 0.15}
+
+
+def gen_children_bp_dup(rng):
+    seqid, strand = rng.choice(G.SEQIDS), rng.choice(G.STRANDS)
+    base = [[seqid, strand, rng.choice(["exon", "exon", "exon", "CDS"]), s, e]
+            for s, e in sorted(G.random_intervals(rng, rng.randrange(1, 7), span=rng.choice([12, 30])))]
+    kid_rows, copy_of = G.with_twins(rng, base)
+    kid_ids = G.twin_ids(rng, copy_of, rng.choice(G.TWIN_MODES))
+    par = [[rng.choice(["T0", "T0", "G"])] for _ in base]
+    kid_parents = []
+    j = -1
+    for c in copy_of:
+        if c is None:
+            j += 1
+        kid_parents.append(list(par[j]))                    # a copy repeats the whole line of its original
+    rows = [[seqid, strand, "gene", 1, 200], [seqid, strand, "mRNA", 1, 200]] + kid_rows
+    ids = ["G", "T0"] + [None if i is None else "x" + i for i in kid_ids]
+    parents = [[], ["G"]] + kid_parents
+    calls = []
+    for target in ("G", "T0"):
+        for ctype in ("exon", "CDS"):
+            calls.append({"of": target, "child_featuretype": ctype, "merge": False, "by": rng.choice(["id", "feature"])})
+            calls.append({"of": target, "child_featuretype": ctype, "merge": True, "by": rng.choice(["id", "feature"])})
+            if rng.random() < 0.4:
+                desc = [] if rng.random() < 0.3 else G.tie_insensitive_criteria(rng)
+                calls.append({"of": target, "child_featuretype": ctype, "merge": True, "by": rng.choice(["id", "feature"]),
+                              "criteria": desc, "form": G.criteria_form(rng, desc)})
+    return {"kind": "children_bp", "feats": rows, "ids": ids, "parents": parents, "calls": calls, "dup": True,
+            "dbfile": rng.random() < 0.15}
+
+
+def gen_merge_all_groups(rng, k):
+    """Several featuretype groups, each with runs of its own, under criteria that differ from the default ones in effect,
+    handed over in every form that can be iterated more than once."""
+    rows = G.grouped_db_feats(rng)
+    desc = G.non_default_criteria(rng)
+    forms = ["list", "tuple", "set"] + (["callable"] if len(desc) == 1 else [])
+    return {"kind": "merge_all", "feats": rows, "ids": G.ids_for(rng, rows), "parents": [[] for _ in rows], "criteria": desc,
+            "form": forms[k % len(forms)], "exclude_components": rng.random() < 0.5, "groups": rng.choice(G.GROUP_SETS),
+            "dbfile": rng.random() < 0.15}
+
+
 def run(ctx):
     rng = ctx.rng
     kmax = 3 if ctx.tier == "quick" else 4
@@ -777,6 +1064,38 @@ def run(ctx):
         kids = [r for r in case["feats"] if r[2] == "exon"]
         ctx.case((case["feats"], case["parents"], case["calls"]), nontrivial(sorted(kids, key=lambda r: r[3]), M.DEFAULT),
                  cls="children_bp")
+    # 5. features identical in all nine columns and attributes, through merge(), merge_all() and children_bp()
+    for _ in range(ctx.budget(600, 24000)):
+        case = gen_merge_dup(rng)
+        execute(ctx, case)
+        ctx.case((case["feats"], case["criteria"], case.get("second"), case["source"], case.get("ids")),
+                 nontrivial(case["feats"], case["criteria"]), sample=case if len(case["feats"]) == 3 else None,
+                 cls="merge/identical features " + case["source"])
+    for _ in range(ctx.budget(240, 9000)):
+        case = gen_merge_all_dup(rng)
+        execute(ctx, case)
+        ctx.case((case["feats"], case["ids"], case["criteria"], case["exclude_components"], case["groups"]),
+                 nontrivial(sorted(case["feats"], key=lambda r: (r[0], r[2], r[1], r[3])), case["criteria"]),
+                 cls="merge_all/identical features " + ("exclude" if case["exclude_components"] else "keep"))
+    for _ in range(ctx.budget(100, 4000)):
+        case = gen_children_bp_dup(rng)
+        execute(ctx, case)
+        ctx.case((case["feats"], case["ids"], case["parents"], case["calls"]), len(case["feats"]) > 4, cls="children_bp/identical features")
+    # 6. no criterion at all (empty list / tuple): the three entry points on one database
+    for _ in range(ctx.budget(200, 8000)):
+        case = gen_empty(rng)
+        execute(ctx, case)
+        rows = sorted((r for r in case["feats"] if r[2] == "exon"), key=lambda r: r[3])
+        ctx.case((case["feats"], case["ids"], case["parents"], case["form"], case["groups"], case["exclude_components"]),
+                 len(M.single_pass([model_row(r) for r in rows], M.DEFAULT)) > 1, sample=case if len(case["feats"]) == 4 else None,
+                 cls="empty criteria/" + case["form"])
+    # 7. merge_all: several featuretype groups x every re-iterable form of merge_criteria
+    for k in range(ctx.budget(240, 9000)):
+        case = gen_merge_all_groups(rng, k)
+        execute(ctx, case)
+        ctx.case((case["feats"], case["criteria"], case["exclude_components"], case["groups"], case["form"]),
+                 nontrivial(sorted(case["feats"], key=lambda r: (r[0], r[2], r[1], r[3])), case["criteria"]),
+                 cls="merge_all/several groups, criteria as " + case["form"])
     ctx.mon("bins.bins contract evaluations", contracts.EVALS["bins.bins"])
 
 
